@@ -87,6 +87,11 @@ impl WebSocket for KaWs {
 }
 
 fn dur(secs: u64) -> OptionalDuration {
+    // the values reach the options the way the applications' command lines deliver them: as decimal seconds through
+    // `FromStr` ("0" = never); even values take that road, odd ones `From<Duration>` -- both must mean the same
+    if secs % 2 == 0 {
+        return secs.to_string().parse::<OptionalDuration>().expect("decimal seconds parse");
+    }
     OptionalDuration::from(Duration::from_secs(secs))
 }
 
